@@ -144,3 +144,25 @@ package security
 //@   requires serviceCore != nil
 //@   at call ReadFile#1 before
 //@     assert [acl-registry-loaded-from-the-file-it-is-written-to] filename == aclsPath(serviceCore.Location)
+
+// ---------------------------------------------------------------------------
+// C16: the dataset list served to a non-admin client holds only datasets whose path /datasets/<name> the client's own
+// access controls grant for reading (decision: IsGranted above), each decided for its own name
+//@ assumed (*ServiceCore).GetAccessControls
+//@   pure
+//@   ensures forall i int :: 0 <= i && i < len(result) ==> result[i] != nil
+//@ unit (*ServiceCore).FilterDatasets
+//@   prop C16
+//@   ghost aclG slice
+//@   ghost grantedG bool = false
+//@   requires serviceCore != nil
+//@   at call GetAccessControls#1 before
+//@     assert [C16:the-clients-own-access-controls-decide] clientID == subject
+//@   at call GetAccessControls#1
+//@     ghost aclG := $result
+//@   at call IsGranted#1 before
+//@     assert [C16:each-dataset-is-decided-for-its-own-path-and-for-reading] acl == aclG && resource == "/datasets/" + datasets[$i1 + 1].Name && action == "read"
+//@   at call IsGranted#1
+//@     ghost grantedG := $result
+//@   at call append#1 before
+//@     assert [C16:only-datasets-granted-for-reading-are-listed] grantedG && len($arg1) == 1 && $arg1[0].Name == datasets[$i1 + 1].Name
